@@ -99,7 +99,26 @@ func c17Server(x *explore.Ctx, sh c05Shape, rbs, hs int, tier string) {
 	if err != nil {
 		x.Failf("C17:upgrade-failed", "Upgrade failed: %v", err)
 	}
+	// optionally a second upgrade (with its own early frame) happens before the first
+	// connection is read: the two must not share what was buffered
+	var conn2 *websocket.Conn
+	if x.Pick(2, "second-upgrade-before-reading") == 1 {
+		other := wsref.Encode(wsref.Frame{Fin: true, Opcode: wsref.OpText, Masked: true, Key: maskKeys[0], Payload: []byte("other connection")})
+		nc2 := netsim.NewConn(other)
+		nc2.NoReadLog = true
+		w2 := newFakeRW(nc2, hs, nil)
+		w2.BR.Peek(1)
+		req2 := &http.Request{Method: "GET", Header: hdr.Clone(), Host: "h", Proto: "HTTP/1.1", ProtoMajor: 1, ProtoMinor: 1}
+		conn2, err = u.Upgrade(w2, req2, nil)
+		if err != nil {
+			x.Failf("C17:upgrade-failed", "second Upgrade failed: %v", err)
+		}
+	}
 	rr := ReadAllMessages(conn, x.Pick(2, "readprog"), 3, len(want)+2)
+	if conn2 != nil {
+		r2 := ReadAllMessages(conn2, 0, 3, 3)
+		x.Check(len(r2.Msgs) == 1 && string(r2.Msgs[0].Payload) == "other connection", "C17:server-lost-bytes-second-upgrade", "second upgraded connection delivered %s (then %v), want its own frame", fmtMsgs(r2.Msgs), r2.Err)
+	}
 	x.Obs("k=%d delivered=%s err=%v", k, fmtMsgs(rr.Msgs), rr.Err)
 	x.Check(msgsEqual(rr.Msgs, want), fmt.Sprintf("C17:server-lost-bytes:reuse=%v", rbs == 0 && hs > 256), "server side, k=%d of %d bytes pre-buffered (hijacked reader %d, ReadBufferSize %d, socket chunk %d): delivered %s (then %v), stream encodes %s", k, len(stream), hs, rbs, sockChunk, fmtMsgs(rr.Msgs), rr.Err, fmtMsgs(want))
 }
@@ -107,43 +126,60 @@ func c17Server(x *explore.Ctx, sh c05Shape, rbs, hs int, tier string) {
 func c17Client(x *explore.Ctx, sh c05Shape, rbs int) {
 	stream := wsref.EncodeAll(sh.build(false))
 	want := c17Expect(stream, wsref.Server, sh.deflate)
-	nc := netsim.NewConn(nil)
-	nc.NoReadLog = true
-	var reply []byte
 	mode := x.Pick(2, "delivery")
 	split := -1
-	nc.Extra = func(c *netsim.Conn) []byte {
-		if reply != nil {
-			return nil
+	// one Dial, or two Dials whose connections are read only afterwards (state shared between
+	// the dials of one process must not mix up what arrived with each handshake)
+	ndials := 1 + x.Pick(2, "second-dial-before-reading")
+	other := wsref.EncodeAll([]wsref.Frame{{Fin: true, Opcode: wsref.OpText, Payload: []byte("other connection")}})
+	var conns []*websocket.Conn
+	for di := 0; di < ndials; di++ {
+		di := di
+		nc := netsim.NewConn(nil)
+		nc.NoReadLog = true
+		var reply []byte
+		nc.Extra = func(c *netsim.Conn) []byte {
+			if reply != nil {
+				return nil
+			}
+			i := bytes.Index(c.Out, []byte("\r\n\r\n"))
+			if i < 0 {
+				return nil
+			}
+			h := hsref.ParseHead(c.Out)
+			var b bytes.Buffer
+			fmt.Fprintf(&b, "HTTP/1.1 101 Switching Protocols\r\nUpgrade: websocket\r\nConnection: Upgrade\r\nSec-WebSocket-Accept: %s\r\n", hsref.AcceptKey(h.Get("Sec-WebSocket-Key")[0]))
+			if sh.deflate {
+				b.WriteString("Sec-WebSocket-Extensions: permessage-deflate; server_no_context_takeover; client_no_context_takeover\r\n")
+			}
+			b.WriteString("\r\n")
+			if di == 0 {
+				b.Write(stream)
+			} else {
+				b.Write(other)
+			}
+			reply = b.Bytes()
+			if mode == 0 && di == 0 {
+				split = x.Pick(len(reply)+1, "split")
+				c.Chunk = netsim.ChunkSplitAt(split)
+			} else if mode == 1 {
+				c.Chunk = netsim.ChunkFixed(1)
+			}
+			return reply
 		}
-		i := bytes.Index(c.Out, []byte("\r\n\r\n"))
-		if i < 0 {
-			return nil
+		d := &websocket.Dialer{ReadBufferSize: rbs, EnableCompression: sh.deflate, NetDialContext: func(ctx context.Context, network, addr string) (net.Conn, error) { return nc, nil }}
+		conn, _, err := d.Dial("ws://example.com/", nil)
+		if err != nil {
+			x.Failf("C17:dial-failed", "Dial failed: %v", err)
 		}
-		h := hsref.ParseHead(c.Out)
-		var b bytes.Buffer
-		fmt.Fprintf(&b, "HTTP/1.1 101 Switching Protocols\r\nUpgrade: websocket\r\nConnection: Upgrade\r\nSec-WebSocket-Accept: %s\r\n", hsref.AcceptKey(h.Get("Sec-WebSocket-Key")[0]))
-		if sh.deflate {
-			b.WriteString("Sec-WebSocket-Extensions: permessage-deflate; server_no_context_takeover; client_no_context_takeover\r\n")
-		}
-		b.WriteString("\r\n")
-		b.Write(stream)
-		reply = b.Bytes()
-		if mode == 0 {
-			split = x.Pick(len(reply)+1, "split")
-			c.Chunk = netsim.ChunkSplitAt(split)
-		} else {
-			c.Chunk = netsim.ChunkFixed(1)
-		}
-		return reply
-	}
-	d := &websocket.Dialer{ReadBufferSize: rbs, EnableCompression: sh.deflate, NetDialContext: func(ctx context.Context, network, addr string) (net.Conn, error) { return nc, nil }}
-	conn, _, err := d.Dial("ws://example.com/", nil)
-	if err != nil {
-		x.Failf("C17:dial-failed", "Dial failed: %v", err)
+		conns = append(conns, conn)
 	}
 	x.NonTrivial()
-	rr := ReadAllMessages(conn, x.Pick(2, "readprog"), 3, len(want)+2)
-	x.Obs("split=%d delivered=%s err=%v", split, fmtMsgs(rr.Msgs), rr.Err)
-	x.Check(msgsEqual(rr.Msgs, want), "C17:client-lost-bytes", "client side, response+frames split at %d (mode %d, ReadBufferSize %d): delivered %s (then %v), stream encodes %s", split, mode, rbs, fmtMsgs(rr.Msgs), rr.Err, fmtMsgs(want))
+	rr := ReadAllMessages(conns[0], x.Pick(2, "readprog"), 3, len(want)+2)
+	x.Obs("split=%d dials=%d delivered=%s err=%v", split, ndials, fmtMsgs(rr.Msgs), rr.Err)
+	x.Check(msgsEqual(rr.Msgs, want), "C17:client-lost-bytes", "client side, response+frames split at %d (mode %d, ReadBufferSize %d, %d dials): delivered %s (then %v), stream encodes %s", split, mode, rbs, ndials, fmtMsgs(rr.Msgs), rr.Err, fmtMsgs(want))
+	if ndials == 2 {
+		r2 := ReadAllMessages(conns[1], 0, 3, 3)
+		x.Check(len(r2.Msgs) == 1 && string(r2.Msgs[0].Payload) == "other connection", "C17:client-lost-bytes-second-dial", "second connection delivered %s (then %v), want its own frame", fmtMsgs(r2.Msgs), r2.Err)
+	}
 }
